@@ -177,6 +177,10 @@ func passwordOfThisRequest(fn *ssa.Function, v ssa.Value) (bool, string) {
 			if !ok || !(fl.Name() == "Data" || fl.Name() == "UserMessage") {
 				return false, fnKey(f) + " returns something other than the Data / UserMessage field of a decoded body"
 			}
+			// base: a body decoded right here from the request's Body, or the value a helper decoded from it
+			if decodedHereOrByValueHelper(f, stripAllConv(base)) {
+				continue
+			}
 			// base: result of a helper that decodes f's request parameter's Body
 			dc, ok := stripAllConv(base).(*ssa.Call)
 			if !ok || dc.Common().StaticCallee() == nil {
@@ -313,6 +317,21 @@ func userFieldOnlyFromSession(p *Program, field *types.Var) bool {
 
 // fromSessionBody: v is body.User / body.UserMessage of a body decoded in fn from its request's Body.
 func fromSessionBody(fn *ssa.Function, v ssa.Value) bool {
+	// a variable of the enclosing function captured by this function literal: every value it is given there
+	if u, ok := v.(*ssa.UnOp); ok && u.Op == token.MUL {
+		if fv, ok := u.X.(*ssa.FreeVar); ok {
+			stores, parent, ok := capturedCellStores(fn, fv)
+			if !ok || len(stores) == 0 {
+				return false
+			}
+			for _, st := range stores {
+				if !fromSessionBody(parent, stripAllConv(st.Val)) {
+					return false
+				}
+			}
+			return true
+		}
+	}
 	fl, base, ok := loadedField(v)
 	if !ok || !(fl.Name() == "User" || fl.Name() == "UserMessage") {
 		return false
@@ -709,4 +728,157 @@ func sameCellValue(a, b ssa.Value) bool {
 	}
 	al, ok := ua.X.(*ssa.Alloc)
 	return ok && len(allocStores(al)) == 1
+}
+
+// capturedCellStores: fv is a variable of the enclosing function captured by the function literal fn. Returns the
+// stores into that variable, all of which must be in the enclosing function itself (literals capturing it only
+// read it), and the enclosing function.
+func capturedCellStores(fn *ssa.Function, fv *ssa.FreeVar) ([]*ssa.Store, *ssa.Function, bool) {
+	parent := fn.Parent()
+	if parent == nil {
+		return nil, nil, false
+	}
+	idx := -1
+	for i, f := range fn.FreeVars {
+		if f == fv {
+			idx = i
+		}
+	}
+	if idx < 0 {
+		return nil, nil, false
+	}
+	var cell *ssa.Alloc
+	for _, b := range parent.Blocks {
+		for _, in := range b.Instrs {
+			if mc, ok := in.(*ssa.MakeClosure); ok && mc.Fn == ssa.Value(fn) && idx < len(mc.Bindings) {
+				a, ok := mc.Bindings[idx].(*ssa.Alloc)
+				if !ok || (cell != nil && cell != a) {
+					return nil, nil, false
+				}
+				cell = a
+			}
+		}
+	}
+	if cell == nil {
+		return nil, nil, false
+	}
+	var stores []*ssa.Store
+	for _, rf := range refsOf(cell) {
+		switch x := rf.(type) {
+		case *ssa.Store:
+			if x.Addr != ssa.Value(cell) {
+				return nil, nil, false
+			}
+			stores = append(stores, x)
+		case *ssa.UnOp, *ssa.DebugRef:
+		case *ssa.MakeClosure:
+			// the literal must not write the variable
+			lit, _ := x.Fn.(*ssa.Function)
+			if lit == nil {
+				return nil, nil, false
+			}
+			for i, bnd := range x.Bindings {
+				if bnd != ssa.Value(cell) || i >= len(lit.FreeVars) {
+					continue
+				}
+				for _, r2 := range refsOf(lit.FreeVars[i]) {
+					switch r2.(type) {
+					case *ssa.UnOp, *ssa.DebugRef:
+					default:
+						return nil, nil, false
+					}
+				}
+			}
+		default:
+			return nil, nil, false
+		}
+	}
+	return stores, parent, true
+}
+
+// decodedHereOrByValueHelper: base is (a) a local of f that f itself decodes from its request's Body, or (b) result
+// #k of a helper that is handed f's request Body (or request) and returns there only the value it decoded from
+// that argument or a zero value.
+func decodedHereOrByValueHelper(f *ssa.Function, base ssa.Value) bool {
+	if a, ok := base.(*ssa.Alloc); ok {
+		for dc, da := range decodeCalls(f, "") {
+			if da == a && isRequestBody(dc.Common().Args[0]) {
+				return true
+			}
+		}
+		// a local holding the helper's result
+		st := allocStores(a)
+		if len(st) == 1 {
+			return decodedHereOrByValueHelper(f, stripAllConv(st[0].Val))
+		}
+		dbg("decodedHere: %s alloc %s has %d stores", f.Name(), a.Name(), len(st))
+		return false
+	}
+	call, idx, ok := extractOf(base)
+	if !ok {
+		dbg("decodedHere: %s base %T %v not extract", f.Name(), base, base)
+		return false
+	}
+	g := call.Common().StaticCallee()
+	if g == nil || g.Blocks == nil || g.Pkg == nil || !isModulePath(g.Pkg.Pkg.Path()) {
+		return false
+	}
+	// which parameter of g receives this request's body?
+	var bodyParam *ssa.Parameter
+	for i, a := range call.Common().Args {
+		if i < len(g.Params) && isByteSlice(a.Type()) && isRequestBody(a) {
+			bodyParam = g.Params[i]
+		}
+	}
+	if bodyParam == nil {
+		dbg("decodedHere: no body param")
+		return false
+	}
+	var decoded *ssa.Alloc
+	for dc, da := range decodeCalls(g, "") {
+		if dc.Common().Args[0] == ssa.Value(bodyParam) {
+			decoded = da
+		}
+	}
+	if decoded == nil {
+		dbg("decodedHere: no decode in %s", g.Name())
+		return false
+	}
+	n := 0
+	for _, b := range g.Blocks {
+		ret, ok := b.Instrs[len(b.Instrs)-1].(*ssa.Return)
+		if !ok || b == g.Recover || len(ret.Results) <= idx {
+			continue
+		}
+		for _, rv := range returnedValues(g, ret, idx) {
+			if _, isConst := rv.(*ssa.Const); isConst {
+				continue // the zero value
+			}
+			u, ok := rv.(*ssa.UnOp)
+			if !ok || u.Op != token.MUL {
+				dbg("decodedHere: %s returns %T %v", g.Name(), rv, rv)
+				return false
+			}
+			a, ok := u.X.(*ssa.Alloc)
+			if !ok {
+				dbg("decodedHere: %s returns load of %T", g.Name(), u.X)
+				return false
+			}
+			if a == decoded {
+				n++
+				continue
+			}
+			// a zero value: a local that nothing is stored into
+			for _, rf := range refsOf(a) {
+				switch rf.(type) {
+				case *ssa.UnOp, *ssa.DebugRef:
+				default:
+					dbg("decodedHere: %s other alloc written", g.Name())
+					return false
+				}
+			}
+		}
+	}
+	dbg("decodedHere: %s n=%d", g.Name(), n)
+	return n > 0
 }
